@@ -395,6 +395,16 @@ func symConv(dst types.Type, x sym) value {
 	if dk == types.Bool {
 		return x
 	}
+	if dk == types.String && kindWidth(x.k) == 8 {
+		// string(byte): the UTF-8 encoding of the code point (one byte below 0x80, two bytes otherwise)
+		lim := mkConst(8, 0x80)
+		if EX.decide(mk("bvult", 0, x.t, lim)) {
+			return symstr{x}
+		}
+		hi := mk("bvor", 8, mkConst(8, 0xC0), mk("bvlshr", 8, x.t, mkConst(8, 6)))
+		lo := mk("bvor", 8, mkConst(8, 0x80), mk("bvand", 8, x.t, mkConst(8, 0x3F)))
+		return symstr{sym{types.Uint8, hi}, sym{types.Uint8, lo}}
+	}
 	if b.Info()&types.IsFloat != 0 {
 		// PROTOTYPE: floats only feed log strings here; real engine uses a poisoned opaque value
 		if dk == types.Float32 {
@@ -457,6 +467,7 @@ func (e *Explorer) pcStrings() []string {
 type Sample struct {
 	Decisions int               `json:"decisions"`
 	Asserts   []string          `json:"asserts"`
+	Reached   []string          `json:"reached"`
 	Model     map[string]uint64 `json:"model"`
 	End       string            `json:"end"`
 }
@@ -488,6 +499,7 @@ type Explorer struct {
 	CacheHits  int
 	InitWall   time.Duration
 	reached    bool
+	curReach   []string
 }
 
 func (e *Explorer) ExecutedList() []string { return sortedKeys(e.executed) }
@@ -617,6 +629,7 @@ func (e *Explorer) reset(prefix []int) {
 	e.nondetN = map[string]int{}
 	e.curAsserts = nil
 	e.reached = false
+	e.curReach = nil
 }
 
 type qres struct {
@@ -810,9 +823,9 @@ func (e *Explorer) Run(runOnce func()) {
 		if len(e.curAsserts) > 0 || e.reached {
 			e.Nontrivial++
 		}
-		if len(e.Samples) < 3 && (end == "done") && len(e.curAsserts) > 0 {
+		if (len(e.Samples) < 4 || (len(e.Samples) < 16 && e.Paths%211 == 0)) && (end == "done") && (len(e.curAsserts) > 0 || e.reached) {
 			if ok, model := e.feasibleModel(mkBool(true)); ok {
-				e.Samples = append(e.Samples, Sample{Decisions: len(e.taken), Asserts: e.curAsserts, Model: model, End: end})
+				e.Samples = append(e.Samples, Sample{Decisions: len(e.taken), Asserts: e.curAsserts, Reached: e.curReach, Model: model, End: end})
 			}
 		}
 	}
@@ -1043,6 +1056,12 @@ func (s *Solver) CheckInc(pc []*Term, extra *Term, wantModel bool) (bool, map[st
 	r := s.readLine()
 	dq := time.Since(tq)
 	s.Wall += dq
+	if QueryDumpDir != "" && (r == "sat" || r == "unsat") {
+		queryDumpN++
+		if queryDumpN%QueryDumpEvery == 0 && queryDumpN/QueryDumpEvery <= 400 {
+			os.WriteFile(fmt.Sprintf("%s/q%06d.smt2", QueryDumpDir, queryDumpN), []byte("; expect "+r+"\n"+s.fullScript(pc, extra)), 0o644)
+		}
+	}
 	if dq > time.Second && SlowLog != nil {
 		fmt.Fprintf(SlowLog, ";; %v %s\n(reset)\n%s\n", dq, r, s.fullScript(pc, extra))
 	}
@@ -1128,6 +1147,11 @@ func (s *Solver) script(asserts []*Term) (string, []string) {
 
 var SolverLog io.Writer
 var SlowLog io.Writer
+
+// QueryDumpDir: every QueryDumpEvery-th decided query is written there as a stand-alone script (solver diff).
+var QueryDumpDir string
+var QueryDumpEvery = 97
+var queryDumpN int
 
 // fullScript renders a stand-alone SMT-LIB2 script for pc ∧ extra (debugging / solver diff).
 func (s *Solver) fullScript(pc []*Term, extra *Term) string {
